@@ -89,7 +89,7 @@ func (t T) anc(z uint32) T {
 	return T{uint32(uint64(t.X) / d), uint32(uint64(t.Y) / d), z}
 }
 
-func (t T) orb() maptile.Tile { return maptile.New(t.X, t.Y, maptile.Zoom(t.Z)) }
+func (t T) orb() maptile.Tile { return maptile.Tile{X: t.X, Y: t.Y, Z: maptile.Zoom(t.Z)} } // literal, not maptile.New
 
 func fromOrb(m maptile.Tile) T { return T{m.X, m.Y, uint32(m.Z)} }
 
@@ -137,12 +137,18 @@ func boundMatchesModel(t T, b orb.Bound) error {
 	return nil
 }
 
+// ownCentre is the centre of a tile's bound by the harness's own formula.
+func ownCentre(t T) orb.Point {
+	m := modelBound(t)
+	return orb.Point{(m.Min[0] + m.Max[0]) / 2, (m.Min[1] + m.Max[1]) / 2}
+}
+
 // polarCentre reports whether the (valid) tile belongs to the input family of
 // the known finding "maptile-center-polar-clamp": zoom >= 21, row not the
-// top/bottom row, centre latitude beyond +-85.0511. The centre is the one the
-// clause uses (Tile.Center); the harness's own formula must agree within
-// 1e-9 deg that the centre is up there, so that a wrong Center cannot move a
-// tile into the excluded family.
+// top/bottom row, centre latitude beyond +-85.0511. It is decided by the
+// harness's own centre; the library's Tile.Center is consulted only when the
+// own centre lies within 1e-9 deg of the threshold (at most one row per zoom),
+// where the two could disagree by an ulp.
 func polarCentre(t T) bool {
 	if t.Z < 21 { // at zoom <= 20 the top/bottom row alone covers everything beyond 85.0511
 		return false
@@ -150,9 +156,14 @@ func polarCentre(t T) bool {
 	if t.Y == 0 || uint64(t.Y) == pow2(t.Z)-1 {
 		return false
 	}
-	own := (modelLat(uint64(t.Y), t.Z) + modelLat(uint64(t.Y)+1, t.Z)) / 2
-	c := t.orb().Center()[1]
-	return math.Abs(c) > clampLat && math.Abs(own) > clampLat-1e-9 && (c > 0) == (own > 0)
+	own := math.Abs(ownCentre(t)[1])
+	switch {
+	case own > clampLat+1e-9:
+		return true
+	case own <= clampLat-1e-9:
+		return false
+	}
+	return math.Abs(t.orb().Center()[1]) > clampLat
 }
 
 // ---------------------------------------------------------------- oracles
@@ -365,6 +376,9 @@ func checkTile(t T, centreOnly bool) error {
 func checkCentre(t T) error {
 	mt := t.orb()
 	c := mt.Center()
+	if oc := ownCentre(t); !(math.Abs(c[0]-oc[0]) <= tolBound) || !(math.Abs(c[1]-oc[1]) <= tolBound) {
+		return fmt.Errorf("Center(%v) = %v, the middle of the mercator square's bound is %v (tolerance %g deg)", t, c, oc, tolBound)
+	}
 	if back := maptile.At(c, mt.Z); back != mt {
 		return fmt.Errorf("At(Center(%v) = %v) = %v", t, c, fromOrb(back))
 	}
